@@ -39,6 +39,8 @@ LEVEL_TEXT = {
             "text": "checked_add/checked_sub decided by CBMC on fully symbolic 256-bit operands against a carry-chain reference; from_str decided by CBMC for all ASCII strings up to 3 (thorough 4) characters and by symbolic execution for digit templates with symbolic 256-bit values (overflow of units*10^18 + fraction); Display decided for all 256-bit amounts from the formatting requests recorded from the real write!"},
     "C17": {"engine": "kani (engine K)", "technique": K_TECH, "note": "trusted: Kani/CBMC; library loops (hex::decode, serde_json, multiaddr parsing) are replaced or left outside as listed in evidence; transplanted items are copied verbatim from /repo on every run",
             "text": "one Kani harness per parser and decoded size: panics, slice-index errors and arithmetic overflow are the assertions, inputs are symbolic bytes / full integer ranges"},
+    "C18": {"engine": "symrt (engine D)", "technique": D_TECH, "note": D_NOTE + "; the clause on concurrent OS processes replacing the file atomically is outside the claim",
+            "text": "bounded symbolic execution of the real cache_store.rs: operation sequences with symbolic clock advances (expiry and oldest-peer decisions are the solver's), limits / reliability / well-formedness after every clean-up, merge with the on-disk cache, save-load round trip through real serde_json, corrupt files"},
     "C10": {"engine": "symrt (engine D)", "technique": D_TECH, "note": D_NOTE,
             "text": "bounded symbolic execution of the real record_store.rs / cmd.rs arms: every path of one store operation from small reachable states (capacity 1..3), with 256-bit symbolic hashes and a symbolic responsible range, is decided by the SMT solver; burst, clean-up threshold and restart harnesses"},
 }
